@@ -122,6 +122,8 @@ package httpscenario
 //@ at call step.Templater.Apply assert [variables-of-this-shot] arg(variables) == templateVars
 //@ at call g.prepareRequest assert [the-rendered-parts] arg(reqParts) == reqParts
 //@ at call sample.SetProtoCode assert [code-is-the-status-received] arg(code) == result_of(g.base.Client.Do, 0).StatusCode
+//@ at call io.Copy assert [the-whole-answer-is-read-so-that-the-connection-is-kept-for-the-next-step] arg(a1) == box(resp.Body)
+//@ at call io.ReadAll assert [the-whole-answer-is-read-so-that-the-connection-is-kept-for-the-next-step] arg(a0) == box(resp.Body)
 //@ at call g.base.Aggregator.Report assert [the-step-sample] arg(a0) == sample
 //@ at call postprocessor.Process assert [postprocessors-see-the-response] arg(resp) == result_of(g.base.Client.Do, 0)
 
